@@ -156,7 +156,7 @@ def _literal(e: ast.AST):
     return None
 
 
-def deep_subterms(ctx: Ctx, f: Func, t: Term, max_depth: int = 4):
+def deep_subterms(ctx: Ctx, f: Func, t: Term, max_depth: int = 4, prune=None):
     """All (function, subterm) pairs reachable from ``t`` (evaluated in
     ``f``): follows loop links, expands parameters backwards through every
     resolved call site, and calls of package functions forwards through their
@@ -173,6 +173,12 @@ def deep_subterms(ctx: Ctx, f: Func, t: Term, max_depth: int = 4):
         seen.add(key)
         k = x[0]
         out.append((g, x))
+        if prune is not None:
+            kids = prune(g, x)
+            if kids is not None:
+                for y in kids:
+                    visit(g, y, depth)
+                return
         if k == "rec" and len(x) >= 5:
             visit(ctx.repo.funcs[x[3]], ctx.X.deref(x), depth)
             return
